@@ -72,6 +72,18 @@ def _job(args):
     rows, effects, seed, k0 = args
     out = {'ran': 0, 'bad': [], 'refused': 0, 'allowed': 0}
     eff = {(e['m'], e['exists'], e['overwrite']): e['effect'] for e in effects}
+    # history of the process: arrays have been created, used and deleted before (what a deletion does
+    # must not weaken the protection of arrays opened later)
+    import darr
+    r0 = tempfile.mkdtemp(prefix='darrc20h_')
+    try:
+        for kd in ('Array', 'RaggedArray'):
+            a0, p0 = make(r0, kd)
+            os.unlink(os.path.join(p0, USER))
+            a0.accessmode = 'r+'
+            (darr.delete_array if kd == 'Array' else darr.delete_raggedarray)(a0)
+    finally:
+        shutil.rmtree(r0, ignore_errors=True)
     methods = sorted({e['m'] for e in effects})
     for ri, row in enumerate(rows):
         kind = row['kind']
